@@ -455,11 +455,11 @@ class BuiltinModelLoaderGen(ModelLoaderGen):
             else:
                 state.builder += "pass"
 
-        # a mapping with integer keys passes the first lookup of a list crown and can fail any following one
-        if state.parent_path not in state.type_checked_type_paths or not isinstance(last_path_el, str):
-            with state.builder(f"except {bad_type_error}:"):
-                self._gen_raise_bad_type_error(state, bad_type_load_error, namer=state.parent)
-            state.type_checked_type_paths.add(state.parent_path)
+        # passing the first lookup does not make the data a container of the right kind: a mapping with integer keys passes
+        # the one of a list crown, ``sqlite3.Row`` or ``re.Match`` the one of a dict crown, and fail any following one
+        with state.builder(f"except {bad_type_error}:"):
+            self._gen_raise_bad_type_error(state, bad_type_load_error, namer=state.parent)
+        state.type_checked_type_paths.add(state.parent_path)
 
         self._gen_unexpected_exc_catching(state)
 
